@@ -12,6 +12,30 @@ def _fail(msg):
     return 2
 
 
+from mcv.engine.core import CheckBase, guarded
+
+
+class _PoolProbe(CheckBase):
+    """6 shards: one kills its own process (always), one exhausts its memory inside a guarded case."""
+    id = "C00"
+
+    def shards(self):
+        return [{"k": k} for k in range(6)]
+
+    def run_shard(self, shard, rep):
+        if shard["k"] == 2:
+            os.kill(os.getpid(), 9)
+        if shard["k"] == 4:
+            def grow():
+                keep = []
+                while True:
+                    keep.append(bytearray(64 << 20))
+            st, _ = guarded(grow, 30.0)
+            rep.case(shard, klass="memory" if st == "hang" else "unexpected-" + st)
+            return
+        rep.case(shard)
+
+
 def main():
     from mcv.engine import core
     import smpl_extract
@@ -95,6 +119,19 @@ def main():
     w = C.mode1_2352(b"x" * 3000)
     if len(w) != 2 * 2352 or w[16:16 + 2048] != b"x" * 2048 or w[15] != 1:
         return _fail("MODE1/2352 writer")
+
+    # --- worker pool: a worker that is killed, or that exhausts its memory, neither stalls nor silences the run
+    for dv in (False, True):
+        chk = _PoolProbe("quick", 0)
+        chk.death_is_violation = dv
+        rep, errors = core.run_check(chk, jobs=3)
+        if rep.evaluations != 5 + dv or rep.classes.get("memory") != 1:
+            return _fail(f"pool: evaluations={rep.evaluations} classes={dict(rep.classes)}")
+        if dv and (errors or rep.viol_sigs.get("worker-died") != 1):
+            return _fail(f"pool: dead worker not reported as a violation: {errors} {dict(rep.viol_sigs)}")
+        if not dv and (len(errors) != 1 or "died twice" not in errors[0][0]):
+            return _fail(f"pool: dead worker not reported as a harness error: {errors}")
+    print("selftest: worker pool survives killed workers and memory exhaustion")
 
     # --- manifest / evidence schemas (when the tooling interpreter is present)
     vt = "/opt/veriftools/pyvenv/bin/python"
